@@ -62,7 +62,8 @@ def main():
         out['demo_patched_exit'] = rc1
         out['demo_patched_output'] = o1[-300:]
         out['checks'] = {}
-        for cid in a.checks.split(','):
+        ids = ['C%02d' % i for i in range(1, 21)] if a.checks == 'all' else a.checks.split(',')
+        for cid in ids:
             rc, keys, txt = drill.run_check(dst, cid, a.tier, a.seed)
             out['checks'][cid] = {'exit': rc, 'keys': [k[:260] for k in keys[:4]]}
         print(json.dumps(out, indent=1))
